@@ -21,6 +21,11 @@ prop("C18", "exploration",
       "32-bit length fields (codex) are not probed at their 4 GiB limit"],
      [dict(name="common", pkg="common", run="^TestVerifC18", shards=dict(quick=4, thorough=8), thorough_scale=100),
       dict(name="certs", pkg="certs", run="^TestVerifC18", shards=dict(quick=8, thorough=16), thorough_scale=100),
+      dict(name="authgrants", pkg="authgrants", run="^TestVerifC18", shards=dict(quick=8, thorough=16), thorough_scale=100),
+      dict(name="tubes", pkg="tubes", run="^TestVerifC18", shards=dict(quick=8, thorough=16), thorough_scale=100),
+      dict(name="codex", pkg="codex", run="^TestVerifC18", shards=dict(quick=8, thorough=16), thorough_scale=100),
+      dict(name="portforwarding", pkg="portforwarding", run="^TestVerifC18", shards=dict(quick=8, thorough=16), thorough_scale=100),
+      dict(name="keys", pkg="keys", run="^TestVerifC18", shards=dict(quick=4, thorough=8), thorough_scale=50),
       ],
      exhaustive_core=False,
      text="Round-trip search over every wire codec: generated values (edge-biased field lengths, all enum bytes) are encoded by "
